@@ -6,21 +6,27 @@ Model:      specs/Includes.tla.  Part 1 (P-layer): ClosureOK (a produced file re
             both; Generate(root, omit) in any order with any omit setting per run; invariants Closure (P) and SelfSufficient
             (design lemma behind "compiles alone").  The design parameters the closure depends on (does a type file refer to
             the support file when support is omitted / is the support file written when omitted) are OBSERVED from the real
-            generator per target and the model is checked with the observed values; negative controls refute the model with
-            a broken support policy, with a scanner that forgets response attributes, with one that forgets array elements.
+            generator per target and the model is checked with the observed values (a refuted Closure is a predicted design
+            finding: only a recorded execution of the real code is a verdict); negative controls refute the model with a
+            broken support policy, with a scanner that forgets response attributes, with one that forgets array elements.
             specs/IncludesNames.tla enumerates the NAME universe {position} x {class of name} x {word} x {kind of host type}.
-spec->code: every world / every selected name case becomes a scratch DSDL tree; the real generator (nunavut.generate_types from
-            vf.core.REPO) runs for c, cpp (c++14, c++17, c++17-pmr, c++20) and py with serialization support enabled AND
-            omitted; #include / import lines of every produced file are parsed; every header is compiled ALONE in a one-line
-            translation unit (C11 gcc+clang, inside a C++ TU, C++14/17/20 g++ and clang++) with the flag set read from
-            verification/cmake/compiler_flag_sets/common.cmake; every Python module is imported alone under -W error.
-            The model's predicted references are compared with the observed ones (difference with P satisfied = drift).
+spec->code: every world (Includes_emit.cfg) / every selected name case becomes a scratch DSDL tree; the real generator
+            (nunavut.generate_types from vf.core.REPO) runs for c, cpp (c++14, c++17, c++17-pmr, c++20) and py with serialization
+            support enabled AND omitted; #include / import lines of every produced file are parsed; every header is compiled
+            ALONE in a one-line translation unit (C11 gcc+clang, inside a C++ TU, C++14/17/20 g++ and clang++, plus a TU that
+            expands the header's own object-like macros: C constants are macros) with the flag set read from
+            verification/cmake/compiler_flag_sets/common.cmake; every Python module is imported alone with warnings as errors.
+            The model's prediction (files present after every Generate step, references of every file) is compared with the
+            observation (difference with P satisfied = drift).
 code->spec: the same recording for seeded random LARGER namespace sets (<= 10 types, 3 roots, depth 3, random primitive
-            widths, arrays, constants, reserved names in several positions at once) and for every DSDL tree shipped in the
+            widths, arrays, constants, keywords / builtins in several positions at once) and for every DSDL tree shipped in the
             repository that loads offline.  All recorded events (begin/gen/refs/compile) are judged by specs/IncludesTrace.tla.
 
 Level: the include-closure clause is decided by the model + traces; "compiles without diagnostics" is a fact only a compiler
 establishes: the spec states it as an event postcondition and TLC enumerates the inputs (bounded-exhaustive testing).
+
+Signatures: C06|<clause>|<target>|<ser|omit|any>|<class>, class = the warning option the tool names, else the message without
+names and numbers, else a root-cause label (a DSDL name that is a standard-library macro where it is emitted).
 """
 import ast
 import builtins
@@ -72,6 +78,11 @@ CXX_STD_HEADERS = set("algorithm any array atomic bit bitset cassert cctype cerr
                       "string_view system_error thread tuple type_traits typeindex typeinfo unordered_map unordered_set utility valarray "
                       "variant vector version".split())
 PY_THIRD_PARTY = {"numpy", "pydsdl"}  # documented run-time dependencies of the generated Python code
+# A ROOT namespace named like a module of the Python standard library (operator, this, ...) yields a package that shadows the library
+# module once the output directory is on sys.path.  Such names are neither keywords nor reserved patterns of the target language (the
+# classes the property lists), no stropping could help short of renaming every root package, and whether the import works depends on
+# the consumer's sys.path order: they are left out of the explored universe for the Python target (stated in not_exercised).
+PY_STDLIB = set(getattr(sys, "stdlib_module_names", ())) | {"this", "operator"}
 
 
 def read_flag_sets(ctx=None):
@@ -360,7 +371,11 @@ def random_set(rng, idx):
                 return w
         return "n%d" % len(used)
 
-    roots = [fresh("r") for _ in range(nroots)]
+    roots = []
+    while len(roots) < nroots:
+        r = fresh("r")
+        if r not in PY_STDLIB:  # see PY_STDLIB
+            roots.append(r)
     nss = []
     for r in roots:
         nss.append([r])
@@ -909,6 +924,8 @@ def diag_class(diag):
     msg = re.sub(r"^.*?\b(?:fatal error|error|warning)\b:?\s*", "", diag)
     if re.match(r"^[A-Za-z]+(Error|Warning|Exception)?: ", diag) and "error:" not in diag:
         msg = diag  # python: "ModuleNotFoundError: No module named ..."
+    if "No such file or directory" in msg or "file not found" in msg:
+        return "an included file does not exist"
     msg = re.sub(r"'[^']*'|\"[^\"]*\"|‘[^’]*’", "_", msg)
     msg = re.sub(r"\d+", "N", msg)
     msg = re.sub(r"\[-W[^\]]*\]", "", msg)
@@ -1247,8 +1264,10 @@ def word_for(case, rotate):
     return lst[((case["w"] - 1) + off * rotate) % n]
 
 
-def cfgs_for(ctx, case):
+def cfgs_for(ctx, case, word):
     """thorough tier, words beyond the first of a class: the targets for which the class of the name is special"""
+    if case["pos"] == "ns" and word in PY_STDLIB:
+        return [c for c in ALL_CFGS if c != "py"]  # see PY_STDLIB
     if ctx.quick or case["w"] <= 1 or case["cls"] in ("plain", "case"):
         return ALL_CFGS
     if case["cls"] in ("py_kw", "py_builtin"):
@@ -1348,7 +1367,7 @@ def run(ctx):
             continue
         seen.add(sset["id"])
         nsets.append(sset)
-        njobs.append(mkjob(ctx, sset, [(cfg, m) for cfg in cfgs_for(ctx, c) for m in omodes], tools if c["w"] <= 1 else tool_matrix(full=False),
+        njobs.append(mkjob(ctx, sset, [(cfg, m) for cfg in cfgs_for(ctx, c, w) for m in omodes], tools if c["w"] <= 1 else tool_matrix(full=False),
                            light=("uroot/", ("c", "cpp14", "cpp17pmr") if ctx.quick else None)))
     # two distinct DSDL names that the C / C++ stropping folds onto one identifier: excluded by the property (Includes!Folded) for those
     # targets, judged as usual for Python (if_ and _if stay distinct)
@@ -1414,6 +1433,8 @@ def run(ctx):
                   "silent).  The project relaxes its C++ set for C code in C++ TUs (-Wno-old-style-cast, verification/CMakeLists.txt) because C "
                   "cannot satisfy it; NULL is the same kind of diagnostic, so clang++ extern-C compiles add -Wno-zero-as-null-pointer-constant.")
     ctx.not_exercised("cetl++14-17 flavour (CETL submodule is empty offline); 32-bit targets (-m32); linking / execution of the generated code")
+    ctx.not_exercised("root namespaces named like a module of the Python standard library (e.g. operator): the generated package would shadow "
+                      "the library module; such names are neither keywords nor reserved patterns and are not explored for the Python target")
     if ctx.quick:
         ctx.not_exercised("quick tier: covering subset of the name universe, every %d-th world, reduced compiler matrix for c++17/20" % stride)
 
